@@ -278,7 +278,7 @@ CMP_OPS = ("Eq", "Ne", "Lt", "Le", "Gt", "Ge")
 
 # ------------------------------------------------------------------ state
 class State:
-    __slots__ = ("cells", "cond", "effects", "assume", "ncell", "notes")
+    __slots__ = ("cells", "cond", "effects", "assume", "ncell", "notes", "symmem")
 
     def __init__(self):
         self.cells = {}
@@ -287,6 +287,7 @@ class State:
         self.effects = []
         self.ncell = [0]
         self.notes = []
+        self.symmem = {}     # symbolic pointer value -> value stored through it
 
     def fork(self):
         s = State()
@@ -296,6 +297,7 @@ class State:
         s.effects = list(self.effects)
         s.ncell = self.ncell  # shared counter (ids unique across forks)
         s.notes = list(self.notes)
+        s.symmem = dict(self.symmem)
         return s
 
     def new_cell(self, val):
@@ -375,6 +377,8 @@ class Engine:
         if k == "deref":
             if val[0] == "ref":
                 return self.read_path(st, st.cells[val[1]], val[2])
+            if val in st.symmem:
+                return st.symmem[val]
             return ("deref", val)
         if k == "field":
             name = pe[1]
@@ -399,6 +403,10 @@ class Engine:
                 return val
             return ("downcast", val, pe[1])
         if k == "index":
+            if self.index_hook is not None:
+                v = self.index_hook(self, st, val, pe[1])
+                if v is not None:
+                    return v
             return ("index", val, pe[1])
         raise Unsupported("projection %r" % (pe,))
 
@@ -493,6 +501,13 @@ class Engine:
             if old[0] == "ref":
                 self.write_cell(st, old[1], list(old[2]) + list(proj[1:]), new)
                 return old
+            rest = list(proj[1:])
+            if rest:
+                cur = st.symmem.get(old, ("deref", old))
+                whole = self.write_value(cur, rest, new, st)
+            else:
+                whole = new
+            st.symmem[old] = whole
             st.effects.append(Effect(kind="store", callee="<store>", resolved="<store>",
                                      args=(old, new), proj=tuple(proj[1:]), loc=None))
             return old
@@ -1138,6 +1153,8 @@ class Engine:
         if v[0] == "ref":
             inner = self.read_path(st, st.cells[v[1]], v[2])
             return ("app", "&", (self.snapshot(st, inner, depth + 1),))
+        if v in st.symmem:
+            return ("app", "&", (self.snapshot(st, st.symmem[v], depth + 1),))
         if v[0] == "tuple":
             return ("tuple", tuple(self.snapshot(st, x, depth + 1) for x in v[1]))
         if v[0] == "adt":
